@@ -458,6 +458,14 @@ theorem readers_tables_match :
     C12Readers.svmItemSep = [SP] ∧ C12Readers.svmNoLabelMark = [COLON] ∧ C12Readers.svmLabelSep = [COMMA] ∧
     C12Readers.svmKvSep = [COLON] ∧ C12Readers.manikSkip = 1 := by decide
 
+/-- phase 5, `ArffLineReader._dense_advanced`: the delimiter guess `',' if len(line.split(',')) > len(line.split('\t')) else "\t"`
+(`fallbackDelim`), the glue of `item += "," + d_line.popleft()` (`advLoop`), the character deleted by `item.replace('\\','')`
+(`advClean`, `advLoop`) -/
+theorem fallback_tables_match :
+    C12Readers.fallbackThen = [COMMA] ∧ C12Readers.fallbackElse = [TAB] ∧ C12Readers.fallbackCountL = [COMMA] ∧
+    C12Readers.fallbackCountR = [TAB] ∧ C12Readers.fallbackDeleted = [BS] ∧ C12Readers.fallbackGlue = [COMMA] ∧
+    C12Readers.fallbackStrict = true := by decide
+
 /-- `ArffDataReader._trans = str.maketrans('','',…)`: the deleted characters -/
 theorem compact_uses_trans (t : Text) : compact t = t.filter (fun c => !C12Readers.transDeleted.contains c) := compact_eq_filter t
 theorem sparse_missing_uses_patterns (l : Text) :
@@ -522,5 +530,121 @@ theorem numerals_fs_counterexample :
     (isFloatLit [11, 78, 97, 78, 28] = true ∧ isFloatLitPy [11, 78, 97, 78, 28] = false) ∧
     (parseInt [49, 28] = some 1 ∧ parseIntPy [49, 28] = none) ∧
     (parseInt [49, 95, 48] = none ∧ parseIntPy [49, 95, 48] = some 10 ∧ parseIntPy [49, 95, 95, 48] = none) := by decide
+
+/-! ### phase 5: the whole ARFF reader over CPython's numerals (`arffReadPy`) -/
+
+/-- `arffRead` (the model the whole-file theorems are about) is the instance of the parametrised reader `arffReadG`
+with the older numeral functions -/
+theorem arffRead_is_instance (lines : List Text) : arffReadG parseInt isFloatLit lines = arffRead lines :=
+  arffReadG_old' lines
+
+/-- the reader consults its numeral functions only on tokens built from characters of the file (plus `,` glued in by the
+fallback parser, `\n` after an escape character at a line end, and the default `'0'`): two pairs of numeral functions that
+agree on every token free of `_` and `\x1c`–`\x1f` give the same reading of every file free of these characters — for
+all files, dense and sparse, every spelling, errors included -/
+theorem arffRead_numerals_congr (pi pi' : Text → Option Int) (fl fl' : Text → Bool)
+    (hpi : ∀ t, t.all numClean = true → pi t = pi' t) (hfl : ∀ t, t.all numClean = true → fl t = fl' t)
+    (lines : List Text) (hl : linesNumClean lines = true) : arffReadG pi fl lines = arffReadG pi' fl' lines :=
+  arffReadG_congr' pi pi' fl fl' hpi hfl lines hl
+
+/-- goal 1 of phase 5: on every file free of underscores and of `\x1c`–`\x1f`, the reader over CPython's `int()` /
+`float()` (`arffReadPy`, what the driver now runs against the real `ArffReader`) IS `arffRead` — so every whole-file
+theorem above (`arff_dense_table_roundtrip`, `arff_sparse_table_roundtrip`, framing / keyword / comment invariance)
+transfers to `arffReadPy` on such files -/
+theorem arffReadPy_conservative (lines : List Text) (hl : linesNumClean lines = true) :
+    arffReadPy lines = arffRead lines := arffReadPy_conservative' lines hl
+
+example : linesNumClean [[64,97,116,116,114,105,98,117,116,101,32,97,32,110,117,109,101,114,105,99], [64,100,97,116,97], [49,46,53]] = true := by
+  decide
+
+/-- the hypothesis is needed, in both directions: `1_0` in a numeric column is read (CPython: 10.0) by `arffReadPy` and
+rejected by `arffRead`; the quoted value `'1\x1c'` is rejected by `arffReadPy` (CPython's `float` does not skip `\x1c`)
+and accepted by `arffRead` -/
+theorem arffReadPy_counterexample :
+    (arffReadPy [[64,97,116,116,114,105,98,117,116,101,32,97,32,110,117,109,101,114,105,99], [64,100,97,116,97], [49,95,48]]
+        = .ok (.dense [[97]] [⟨[.num [49,95,48]], false⟩]) ∧
+      arffRead [[64,97,116,116,114,105,98,117,116,101,32,97,32,110,117,109,101,114,105,99], [64,100,97,116,97], [49,95,48]]
+        = .error .valueError) ∧
+    (arffReadPy [[64,97,116,116,114,105,98,117,116,101,32,97,32,110,117,109,101,114,105,99], [64,100,97,116,97], [39,49,28,39]]
+        = .error .valueError ∧
+      arffRead [[64,97,116,116,114,105,98,117,116,101,32,97,32,110,117,109,101,114,105,99], [64,100,97,116,97], [39,49,28,39]]
+        = .ok (.dense [[97]] [⟨[.num [49,28]], false⟩])) := by decide +kernel
+
+/-! ### phase 5: the fallback parser on pieces that do not start with a quote character; `_fallback_delim` undecided -/
+
+/-- exact result of the `while d_line` loop of `_dense_advanced` on every list of pieces none of which starts (after
+`lstrip`) with a quote character: IndexError when some piece is blank, otherwise every piece `lstrip`ped with its
+backslashes deleted — for all piece lists, quote characters and tabs further inside the pieces included -/
+theorem arff_fallback_unquoted_exact (ps : List Text) (h : ps.all pieceUnquoted = true) :
+    advLoop none ps = advUnquoted ps := advLoop_unquoted' ps h
+
+/-- the fallback parser entered on the current line with `_fallback_delim` still undecided (a first data row holding both
+quote characters, or a later row holding the other quote character): for EVERY line whose pieces under the delimiter chosen
+on this line do not start with a quote character, the complete result (values, new reader state, IndexError / CobaException) -/
+theorem arff_fallback_undecided_exact (n : Nat) (s : ALRF) (line : Text) (hs : s.fallback = none)
+    (h : (splitOn (fallbackDelim line) line).all pieceUnquoted = true) :
+    arffAdvanced n s line =
+      (match advUnquoted (splitOn (fallbackDelim line) line) with
+       | .error e => .error e
+       | .ok parsed =>
+         if parsed.length = n then .ok ({ s with advanced := true, fallback := some (fallbackDelim line) }, parsed)
+         else .error .cobaException) := arffAdvanced_undecided' n s line hs h
+
+/-- goal 2 of phase 5, the exact ("iff") characterisation: a row of `innerTok` values (not empty, no leading white space or
+quote character, no comma, no backslash; tabs and quote characters allowed further in) joined by commas is read back by the
+undecided fallback parser **iff** the line holds no tab or fewer tab pieces than values — otherwise the delimiter guess
+`len(line.split(',')) > len(line.split('\t'))` picks the tab and the row is misread or rejected.
+(`hq`: no tab piece starts with a quote character — there the quoted branch of the loop, where C12-F11 lives, takes over.) -/
+theorem arff_fallback_undecided_iff (vs : List Text) (hne : vs ≠ []) (h : ∀ v ∈ vs, innerTok v = true)
+    (s : ALRF) (hs : s.fallback = none)
+    (hq : (splitOn TAB (joinWith COMMA vs)).all pieceUnquoted = true) :
+    (arffAdvanced vs.length s (joinWith COMMA vs)).map (·.2) = .ok vs ↔
+      (¬ TAB ∈ joinWith COMMA vs ∨ (splitOn TAB (joinWith COMMA vs)).length < vs.length) :=
+  fallback_undecided_iff' vs hne h s hs hq
+
+/-- non-vacuity and reachability: the first data row `it's,say"hi` holds both quote characters, so a fresh reader enters
+the fallback with `_fallback_delim` undecided — and returns the two values; with a tab inside, `a<TAB>b,c,d` (2 tab pieces
+< 3 values) is still read back -/
+example :
+    innerTok [105,116,39,115] = true ∧ innerTok [115,97,121,34,104,105] = true ∧
+    (splitOn TAB (joinWith COMMA [[105,116,39,115], [115,97,121,34,104,105]])).all pieceUnquoted = true ∧
+    (arffLineStepF 2 ALRF.init (joinWith COMMA [[105,116,39,115], [115,97,121,34,104,105]])).map (·.2)
+      = .ok [[105,116,39,115], [115,97,121,34,104,105]] ∧
+    (arffAdvanced 3 ⟨true, true, none, COMMA, none⟩ (joinWith COMMA [[97,9,98], [99], [100]])).map (·.2) = .ok [[97,9,98], [99], [100]] := by
+  decide
+
+/-- the right-hand side of the iff is needed: `a<TAB>b,c<TAB>d` (3 tab pieces ≥ 2 values) is split at the tabs and rejected,
+`a<TAB>b,c` (2 tab pieces = 2 values) is silently misread as `a`, `b,c`; and outside `innerTok` a backslash is lost -/
+theorem arff_fallback_undecided_counterexample :
+    (arffAdvanced 2 ⟨true, true, none, COMMA, none⟩ (joinWith COMMA [[97,9,98], [99,9,100]])).map (·.2) = .error .cobaException ∧
+    (arffAdvanced 2 ⟨true, true, none, COMMA, none⟩ (joinWith COMMA [[97,9,98], [99]])).map (·.2) = .ok [[97], [98,44,99]] ∧
+    (arffAdvanced 2 ⟨true, true, none, COMMA, none⟩ (joinWith COMMA [[97,92,98], [99]])).map (·.2) = .ok [[97,98], [99]] := by
+  decide
+
+/-! ### phase 5: LibSVM / Manik with `int()` / `float()` of the tokens inside the model -/
+
+/-- `LibsvmReader` with the conversions `int(k)` / `float(v)` as CPython reads them (`libsvmReadPy`): every file a LibSVM
+writer produces (decimal indices, values `float()` accepts) is read back as index ↦ value dictionaries and label lists -/
+theorem libsvm_roundtrip_py (rows : List SvmRow) (hok : ∀ r ∈ rows, svmRowOk r = true)
+    (hnum : ∀ r ∈ rows, svmNumOk r = true) :
+    libsvmReadPy (rows.map svmWriteRow) = .ok (rows.map svmRowOutPy) := libsvm_roundtrip_py' rows hok hnum
+
+/-- `ManikReader`: the same after the metadata line -/
+theorem manik_roundtrip_py (first : Text) (rows : List SvmRow) (hok : ∀ r ∈ rows, svmRowOk r = true)
+    (hnum : ∀ r ∈ rows, svmNumOk r = true) :
+    manikReadPy (first :: rows.map svmWriteRow) = .ok (rows.map svmRowOutPy) := manik_roundtrip_py' first rows hok hnum
+
+example : svmRowOk ⟨[[49], [50]], [([51], [52, 46, 53]), ([55], [49, 101, 53])]⟩ = true ∧
+    svmNumOk ⟨[[49], [50]], [([51], [52, 46, 53]), ([55], [49, 101, 53])]⟩ = true := by decide
+
+/-- `svmNumOk` is needed and the numerals are CPython's: the index `1_0` is column 10, `1__0` / the value `1e` / the index
+`3\x1c` are rejected with ValueError; a repeated index keeps its first position and its last value -/
+theorem libsvm_numerals_counterexample :
+    libsvmReadPy [[49, 32, 49, 95, 48, 58, 50]] = .ok [([(10, [50])], [[49]])] ∧
+    libsvmReadPy [[49, 32, 49, 95, 95, 48, 58, 50]] = .error .valueError ∧
+    libsvmReadPy [[49, 32, 51, 58, 49, 101]] = .error .valueError ∧
+    libsvmReadPy [[49, 32, 51, 28, 58, 49]] = .error .valueError ∧
+    libsvmReadPy [[49, 32, 51, 58, 49, 32, 52, 58, 50, 32, 51, 58, 57]] = .ok [([(3, [57]), (4, [50])], [[49]])] := by
+  refine ⟨?_, ?_, ?_, ?_, ?_⟩ <;> rfl
 
 end Coba.C12
